@@ -41,6 +41,8 @@ type NodeRT struct {
 	Kind      string // sub subf subff clone clonef cloneff monitor
 	Parent    *NodeRT
 	Filter    FilterSpec
+	refLock         chan struct{} // serialises Refilter calls on this node: 'most recently set filter' is only defined for ordered calls
+	RefilterPending bool // a Refilter call has been issued (set before the call)
 	HasFilter bool // a filter is in force (immediate variants: always; deferred: after first accepted Refilter)
 	Deferred  bool
 
@@ -93,10 +95,13 @@ type H struct {
 	// overrun"); from then on event streams may legitimately have gaps.
 	Overflow         bool
 	ExpectNoOverflow bool
+	OverflowSeen     bool // any subscriber-buffer overflow was logged (set in every mode)
+	PerNodeOverflow  bool // do not give up strict mirrors globally on an overflow log: only nodes whose own buffer was seen full are exempt
 	WatchOverflow    bool // watcher/session buffer overflow: watch events lost until the next relist
 	EvSeq       int // global receive counter
 	MaxSeenVer  int // highest version any reader has received (C04 resume lower bound)
 	GetCheck    bool
+	RootDown    func() bool // the scenario has shut the controller down (or is doing so right now)
 	NoRelist    bool
 }
 
@@ -106,7 +111,10 @@ func NewH(srv *Server, rootFilter FilterSpec, period time.Duration, logYield boo
 	lg.Hook = func(level, comp, msg string) {
 		switch {
 		case strings.Contains(msg, "event buffer overrun"):
-			h.Overflow = true
+			h.OverflowSeen = true
+			if !h.PerNodeOverflow {
+				h.Overflow = true
+			}
 			detsim.Count("probe:subscriber-buffer-overflow")
 			if h.ExpectNoOverflow {
 				detsim.Fail("unexpected-overflow", "%s logged %q although every consumer keeps its backlog far below the buffer size", comp, msg)
@@ -353,7 +361,7 @@ func (h *H) record(n *NodeRT, ev kcache.Event) {
 	if v := spec.Ver(); v > h.MaxSeenVer && re.Type != "delete" {
 		h.MaxSeenVer = v
 	}
-	if h.Overflow {
+	if h.Overflow || n.WasFull {
 		n.Mirror = nil // gaps are legitimate from now on; strict replay is meaningless
 	}
 	if n.Mirror != nil {
@@ -361,13 +369,13 @@ func (h *H) record(n *NodeRT, ev kcache.Event) {
 			detsim.Fail("malformed-event", "%s (event #%d of this subscriber)", msg, len(n.Events))
 		}
 	}
-	if h.GetCheck && re.Type != "delete" {
+	if h.GetCheck && re.Type != "delete" && !h.anyFilteredAncestor(n) {
 		// C05 (iv): the cache is never older than an event already received
 		got, err := n.Sub.Cache().Get(spec.NS, spec.Name)
 		if err == nil {
 			if got == nil {
-				if _, still := h.Srv.Get(spec.Key()); still && !h.lateDeleted(spec) && !n.Filtered() && (n.Parent == nil || !h.anyFilteredAncestor(n)) {
-					detsim.Fail("cache-older-than-event", "%s received %s but Cache().Get returned nil while the server still has the object and never deleted it after that version", n.Name(), re.Sig())
+				if !h.lateDeleted(spec) {
+					detsim.Fail("cache-older-than-event", "%s received %s but Cache().Get returned nil although the server never deleted the object after that version", n.Name(), re.Sig())
 				}
 			} else if gs := SpecOf(got); gs.Ver() < spec.Ver() {
 				detsim.Fail("cache-older-than-event", "%s received %s but Cache().Get returned older %s", n.Name(), re.Sig(), gs.ID())
@@ -375,6 +383,9 @@ func (h *H) record(n *NodeRT, ev kcache.Event) {
 		}
 	}
 }
+
+// AnyFilteredAncestorOrSelf: some filter (node-level or the controller's) sits between n and the server.
+func (h *H) AnyFilteredAncestorOrSelf(n *NodeRT) bool { return h.anyFilteredAncestor(n) }
 
 func (h *H) anyFilteredAncestor(n *NodeRT) bool {
 	for p := n; p != nil; p = p.Parent {
@@ -455,9 +466,25 @@ func (h *H) handler(n *NodeRT) kcache.Handler {
 		Create()
 }
 
+// MonitorsBusy reports whether some monitor callback is executing.
+func (h *H) MonitorsBusy() bool {
+	for _, n := range h.Nodes {
+		if n.Mon != nil && n.monBusy {
+			return true
+		}
+	}
+	return false
+}
+
 // Refilter submits a new filter to a filtered node.
 func (h *H) Refilter(n *NodeRT, f FilterSpec) error {
 	var err error
+	if n.refLock == nil {
+		n.refLock = make(chan struct{}, 1)
+	}
+	n.refLock <- struct{}{}
+	defer func() { <-n.refLock }()
+	n.RefilterPending = true
 	if n.FPub != nil {
 		err = n.FPub.Refilter(f.Build())
 	} else {
@@ -486,6 +513,9 @@ func (h *H) ExpectRoot() []Spec { return FilterSpecs(h.Srv.Objects(), h.RootPred
 // CheckRootEqualsServer compares the controller cache with the server content.
 func (h *H) CheckRootEqualsServer(class string) {
 	got, _, ok := ListIDs(h.Ctrl.Cache())
+	if !ok && h.RootDown != nil && h.RootDown() {
+		return
+	}
 	if !ok {
 		detsim.Fail(class, "controller cache is not running (Error=%v)", h.Ctrl.Error())
 	}
@@ -515,7 +545,7 @@ func (h *H) CheckTree(prefix string) {
 		}
 		ready := detsim.IsClosed(h.ReadyOf(n))
 		_, pspecs, pok := ListIDs(h.CacheOf(n.Parent))
-		if pok && ready {
+		if pok && ready && !(h.Overflow && n.Filtered()) {
 			var want []string
 			if n.Filtered() {
 				want = SpecIDs(FilterSpecs(pspecs, n.Filter.Pred()))
